@@ -1,5 +1,4 @@
-import RtenVerif.Lemmas.PartialRunPrune
-import RtenVerif.Props.C03
+import RtenVerif.Lemmas.PartialRunCompose
 import RtenVerif.Generated.NondetOps
 
 /-!
@@ -134,6 +133,76 @@ example : Computable chainGraph [0] 3 := by
   · exact .supplied (by decide)
   · exact .const (by decide)
 
+/-! ## T1 — the returned values are the full evaluation's values -/
+
+section
+variable {Ω V : Type}
+
+/-- **C04.T1** Every `(id, value)` returned by `partial_run` on the supplied values `S` is the
+value `id` has in the naive full evaluation of the graph (`evalAt`/`evalFull`) on *any*
+completion `S ++ rest` of the inputs by true graph inputs, and for *any* oracle `ω'` (state of
+the random generators): it depends only on `S` and the constants.
+Hypotheses: every value has one producer; operators flagged deterministic are functions of
+their arguments (`DetSem`); the remaining inputs are not produced by any operator. -/
+theorem c04_leaf_values {g : Graph} {sem : Sem Ω V} {cv : Nat → V} {S rest : List (Nat × V)}
+    (hs : Setup g S rest) (hdet : DetSem g sem) {ω : Ω} {outs : List Nat}
+    {leaves : List (Nat × V)} (h : partialRun g sem ω cv S [] outs = .ok leaves) (ω' : Ω) :
+    ∀ pr ∈ leaves, Den g sem ω' cv (S ++ rest) pr.1 pr.2 :=
+  leaf_values hs hdet h ω'
+
+/-- **C04.T1 (against `run`)** … hence equal to what any successful `run` with all inputs
+returns for that id, whatever outputs that run requests and whatever its oracle. -/
+theorem c04_leaf_values_run {g : Graph} {sem : Sem Ω V} {cv : Nat → V} {S rest : List (Nat × V)}
+    (hs : Setup g S rest) (hdet : DetSem g sem) {ω ω' : Ω} {outs outs' : List Nat}
+    {leaves : List (Nat × V)} {vals' : List V}
+    (h : partialRun g sem ω cv S [] outs = .ok leaves)
+    (hrun : run g sem ω' cv (S ++ rest) [] outs' = .ok vals') :
+    ∀ pr ∈ leaves, ∀ pr' ∈ outs'.zip vals', pr'.1 = pr.1 → pr'.2 = pr.2 := by
+  intro pr hpr pr' hpr' heq
+  have h1 := leaf_values hs hdet h ω' pr hpr
+  have h2 := (run_sound hs.up hrun).2 pr' hpr'
+  rw [heq] at h2
+  exact h2.unique g sem ω' cv _ h1
+
+/-! ## T2 — composition
+
+Full statement: `run (partial_run S outs ++ rest) outs = run (S ++ rest) outs` whenever the
+latter succeeds.  Proved below: the *values* agree whenever both runs finish
+(`c04_compose_partial`).  Not proved: that the composed run finishes (no planning error, no
+missing value, no operator error) whenever the single run does — this is compared with the real
+code on every generated case (`final=ok` in the line protocol and the harness's `compose`
+oracle).  Before the `prune_plan` fix the full statement was false (`c04_orig_compose_false`). -/
+
+/-- **C04.T2 (values)** if `run` with all inputs and `run` with the returned leaves plus the
+remaining inputs both finish, they return the same list of outputs — for every graph with
+unique producers, every request and every oracle (the *same* oracle in both runs: a
+non-deterministic operator is executed by both, a deterministic one by exactly one of
+`partial_run` and the composed run). -/
+theorem c04_compose_partial {g : Graph} {sem : Sem Ω V} {cv : Nat → V} {S rest : List (Nat × V)}
+    (hs : Setup g S rest) (hdet : DetSem g sem) {ω : Ω} {outs : List Nat}
+    {leaves : List (Nat × V)} {valsF valsP : List V}
+    (hp : partialRun g sem ω cv S [] outs = .ok leaves)
+    (hfull : run g sem ω cv (S ++ rest) [] outs = .ok valsF)
+    (hfin : run g sem ω cv (leaves ++ rest) [] outs = .ok valsP) : valsF = valsP :=
+  compose_values hs hdet hp hfull hfin
+
+end
+
+/-- Non-vacuity of T1/T2 on `chainGraph` with numbers as values: operator `p` returns
+`sum(args) + p`, the constant 2 is 100, `S = {0 ↦ 5}`, `rest = {1 ↦ 7}`. -/
+def numSem : Sem Unit Nat := fun _ p args => some [args.sum + p]
+
+example : Setup chainGraph [(0, 5)] [(1, 7)] := setup_of_check (by decide) (by decide)
+example : DetSem chainGraph numSem := fun _ _ _ _ _ _ _ => rfl
+example : (partialRun chainGraph numSem () (fun _ => 100) [(0, 5)] [] [4]).toOption =
+    some [(3, 110)] := by decide
+example : (run chainGraph numSem () (fun _ => 100) ([(0, 5)] ++ [(1, 7)]) [] [4]).toOption =
+    some [123] := by decide
+example : (run chainGraph numSem () (fun _ => 100) ([(3, 110)] ++ [(1, 7)]) [] [4]).toOption =
+    some [123] := by decide
+example : evalFull chainGraph numSem () (fun _ => 100) ([(0, 5)] ++ [(1, 7)]) 4 = some 123 := by
+  decide
+
 /-! ## The returned ids are distinct (after the fix); before it they could repeat
 
 `candidate_outputs` starts with the supplied ids and is extended with the outputs of every kept
@@ -142,42 +211,6 @@ once", a supplied id that is *also* an output of a kept operator (a two-output o
 other output is needed) and is requested (or feeds a pruned operator) was returned twice:
 `run` rejects the returned list ("Inputs are not unique"), and with an owned input `run_plan`
 panics ("missing output value") when it collects the second copy. -/
-
-/-- A request `create_plan` accepts is well-formed. -/
-theorem argsOK_of_createPlan_ok {g : Graph} {ins outs plan : List Nat} {opts : PlanOptions}
-    (h : createPlan g ins outs opts = .ok plan) : ArgsOK g ins outs := by
-  obtain ⟨h1, h2, h3, h4⟩ := c03_argument_check g ins outs opts
-  have a : outs.Nodup := by
-    by_cases a : outs.Nodup
-    · exact a
-    · rw [h1 a] at h; cases h
-  have b : ∀ o ∈ outs, isValueOrConstant g o = true := by
-    by_cases b : ∀ o ∈ outs, isValueOrConstant g o = true
-    · exact b
-    · rw [h2 a b] at h; cases h
-  have c : ins.Nodup := by
-    by_cases c : ins.Nodup
-    · exact c
-    · rw [h3 a b c] at h; cases h
-  have d : ∀ i ∈ ins, isValueOrConstant g i = true := by
-    by_cases d : ∀ i ∈ ins, isValueOrConstant g i = true
-    · exact d
-    · rw [h4 a b c d] at h; cases h
-  exact ⟨a, b, c, d⟩
-
-/-- What `partialPlan` returns, unfolded. -/
-theorem partialPlan_ok {g : Graph} {ins outs kept leaves : List Nat}
-    (h : partialPlan g ins outs = .ok (kept, leaves)) :
-    ∃ plan, createPlan g ins outs partialOpts = .ok plan ∧
-      kept = (pruneFold g plan ins).kept ∧ leaves = newOutputs (pruneFold g plan ins) outs := by
-  unfold partialPlan at h
-  cases hc : createPlan g ins outs partialOpts with
-  | error e => simp [hc] at h
-  | ok plan =>
-    simp only [hc, prunePlan] at h
-    injection h with h
-    injection h with h1 h2
-    exact ⟨plan, rfl, h1.symm, h2.symm⟩
 
 /-- **C04 (ids)** The ids returned by `partial_run` are pairwise distinct, so the returned list
 can be passed to `run` (which rejects duplicate inputs) as it is. -/
